@@ -174,7 +174,8 @@ func (r *Registry) tree(v reflect.Value) M {
 				opts = "," + opts
 			}
 			fm := M{"go": f.Name, "exp": f.IsExported(), "emb": f.Anonymous, "embstruct": f.Anonymous && f.Type.Kind() == reflect.Struct,
-				"hasjson": has, "tagname": name, "tagopts": opts, "gomacro": f.Tag.Get("gomacro"), "data": f.Tag.Get("gomacro-data")}
+				"hasjson": has, "tagname": name, "tagopts": opts,
+				"omitempty": strings.Contains(opts+",", ",omitempty,"), "asstring": strings.Contains(opts+",", ",string,"), "gomacro": f.Tag.Get("gomacro"), "data": f.Tag.Get("gomacro-data")}
 			if f.IsExported() || (f.Anonymous && f.Type.Kind() == reflect.Struct) {
 				fm["v"] = r.tree(v.Field(i))
 			} else {
